@@ -15,7 +15,8 @@ REPO_ROOT = os.environ.get('VERIF_REPO', '/repo')
 NATIVE_PY = os.environ.get('VERIF_NATIVE_PY', '/venv/bin/python')
 
 EXTRACTION_DROPS = ('docstrings; type annotations; calls on logger/logging/warnings/traceback receivers, print and '
-                    'sys.stdout/sys.stderr writes are no-ops including their argument expressions')
+                    'sys.stdout/sys.stderr writes are no-ops (their argument expressions are evaluated, without forking, for the '
+                    'exceptions they can raise; arguments the engine cannot evaluate are assumed not to raise)')
 
 
 class Sink:
@@ -283,6 +284,20 @@ def check_property(prop, tier='quick', seed=0, only=None, verbose=False):
                     lines.append('VIOLATION property=%s replay=%s' % (prop, replay_path))
                     print('  failed obligation %s: %s\n  input: %s\n  native: raised=%s result=%s' % (
                         obid, rec['expr'][:300], json.dumps(rec['values'])[:600], run.get('raised'), run.get('result')))
+                elif confirmed is False and str(rec.get('detail') or '').startswith('nondet-env'):
+                    # the failing path needs an environment choice (e.g. the hash order of a set) that the native run cannot
+                    # be given: the obligation is refuted, but there is no replayable input
+                    payload['note'] = rec['detail']
+                    json.dump(payload, open(replay_path, 'w'), indent=1, default=str)
+                    if kf:
+                        known_hits.append((kf, obid))
+                        continue
+                    violations += 1
+                    if obid in reported:
+                        reported[obid] += 1
+                        continue
+                    reported[obid] = 1
+                    lines.append('VIOLATION property=%s replay=%s no-failing-input-found' % (prop, replay_path))
                 elif confirmed is False:
                     engine_errors.append('ENGINE-MISMATCH %s: solver model does not fail natively (values %s)' % (
                         obid, json.dumps(rec['values'])[:400]))
